@@ -168,7 +168,7 @@ def gen(rng, tier, idx, rich=False):
         walk.append([start, bool(rng.random() < 0.5)])
     sched = simworld.random_sched(rng, 0)
     sched['poison'] = rng.random() < 0.7
-    return dict(P=grid[0] * grid[1], grid=grid, family=family, two2d=bool(locals().get('two2d')), order_shuffled=order_shuffled, groups=[[list(map(list, g.items()))][0] for g in groups],
+    return dict(P=grid[0] * grid[1], grid=grid, family=family, two2d=bool(locals().get('two2d')), order_shuffled=order_shuffled, pool=rng.random() < 0.06, groups=[[list(map(list, g.items()))][0] for g in groups],
                 nprocs=nprocs, shape=shape, start=start, walk=walk,
                 dtype=rng.choice(['float64', 'complex128']), sched=sched)
 
@@ -200,8 +200,16 @@ def run(case, tape=None):
         lay = sw.getLayout(cur)
         if bsize < lay.size:
             raise OracleFail('buffer-size', dict(layout=cur, bufferSize=bsize, size=int(lay.size)))
-        a = cm.poison(np.empty(bsize, dtype=dt))
-        b = cm.poison(np.empty(bsize, dtype=dt))
+        pool = None
+        if case.get('pool'):
+            # the fields live in the rows of one array and every call is handed freshly made row views
+            # (short-lived objects): nothing may be remembered about an array object beyond the call
+            pool = cm.poison(np.empty((3, bsize), dtype=dt))
+            ia, ib = 0, 1
+            a, b = pool[ia], pool[ib]
+        else:
+            a = cm.poison(np.empty(bsize, dtype=dt))
+            b = cm.poison(np.empty(bsize, dtype=dt))
         a[:lay.size] = cm.local(G, lay).ravel()
         blocks = {}
         for step, (nxt, use_buf) in enumerate(case['walk']):
@@ -209,10 +217,24 @@ def run(case, tape=None):
             ld = sw.getLayout(nxt)
             if bsize < ld.size:
                 raise OracleFail('buffer-size', dict(layout=nxt, bufferSize=bsize, size=int(ld.size)))
-            buf = cm.poison(np.empty(bsize, dtype=dt)) if use_buf else None
             want_src = cm.local(G, ls)
-            cm.poison(b)
-            sw.transpose(a, b, cur, nxt, buf)
+            if pool is not None:
+                del a, b
+                cm.poison(pool[ib])
+                if use_buf:
+                    cm.poison(pool[2])
+                try:
+                    sw.transpose(pool[ia], pool[ib], cur, nxt, pool[2] if use_buf else None)
+                except (AssertionError, ValueError, TypeError) as e:
+                    # arrays that are views of a larger array may be refused (the shipped code asserts that it owns
+                    # the memory it reshapes); accepted, they must be handled correctly
+                    from harness import SkipWorld
+                    raise SkipWorld('views refused: %s' % type(e).__name__)
+                a, b = pool[ia], pool[ib]
+            else:
+                buf = cm.poison(np.empty(bsize, dtype=dt)) if use_buf else None
+                cm.poison(b)
+                sw.transpose(a, b, cur, nxt, buf)
             want = cm.local(G, ld)
             got = b[:ld.size].reshape(ld.shape)
             if not cm.bits_equal(got, want):
@@ -229,6 +251,8 @@ def run(case, tape=None):
                 # informational properties, not named by C03: recorded, not judged
                 if rank == 0:
                     w.probe('manager_properties_differ_from_destination_layout')
+            if pool is not None:
+                ia, ib = ib, ia
             a, b = b, a
             cur = nxt
         tables = {}
@@ -273,6 +297,8 @@ def run(case, tape=None):
         probes['family_' + case['family']] = 1
         if case.get('order_shuffled'):
             probes['sets_listed_in_another_order'] = 1
+        if case.get('pool'):
+            probes['arrays_are_short_lived_views'] = 1
         if case.get('two2d'):
             probes['several_2d_groups'] = 1
         return dict(nontrivial=(P > 1 and (ng + na) > 0), probes=probes)
